@@ -306,14 +306,34 @@ func runC14(o *opts) {
 				kind += "-b"
 			}
 			cmd := exec.Command(o.dud)
-			if r.chance(1, 3) {
+			var stdinFile *os.File
+			switch r.intn(4) {
+			case 0:
 				kind = strings.Replace(kind, "file", "stdin", 1)
 				cmd.Stdin = bytes.NewReader(data)
-			} else {
+			case 1:
+				// STDIN is the file itself, already read up to an offset by somebody else (as in
+				// `{ head -c K >/dev/null; dud checksum; } < file`): the stream is what is LEFT
+				kind = strings.Replace(kind, "file", "stdin-at-offset", 1)
+				f, err := os.Open(p)
+				must(err)
+				off := 0
+				if n > 0 {
+					off = 1 + r.intn(n)
+				}
+				_, err = f.Seek(int64(off), 0)
+				must(err)
+				stdinFile = f
+				cmd.Stdin = f
+				data = data[off:]
+			default:
 				args = append(args, p)
 			}
 			cmd.Args = append([]string{o.dud}, args...)
 			outb, err := cmd.Output()
+			if stdinFile != nil {
+				stdinFile.Close()
+			}
 			c := &case14{evs: []ev14{{data, 1}}, data: data, kind: kind}
 			if err == nil {
 				// last line: "<digest>  <name>"; the root warning precedes it
